@@ -99,6 +99,8 @@ mod string;
 #[cfg(test)]
 mod test;
 mod types;
+#[cfg(rustfmt_verif)]
+pub mod verif;
 mod vertical;
 pub(crate) mod visitor;
 
